@@ -25,7 +25,7 @@ func resultStores(fn *ssa.Function, r *Roles) []*ssa.Store {
 	var out []*ssa.Store
 	allInstrs(fn, func(in ssa.Instruction) {
 		if st, ok := in.(*ssa.Store); ok {
-			if fa, ok := st.Addr.(*ssa.FieldAddr); ok && fa.Field == r.CtxResultField && len(fn.Params) > 0 && fa.X == ssa.Value(fn.Params[0]) {
+			if fa, ok := st.Addr.(*ssa.FieldAddr); ok && fa.Field == r.CtxResultField && len(fn.Params) > 0 && fa.X == ssa.Value(ctxParam(fn)) {
 				out = append(out, st)
 			}
 		}
@@ -145,6 +145,27 @@ func checkC06(w *World) {
 				if _, isNum := isMethodCall(u.X, "Number"); isNum {
 					ok = true
 					detail = "stores -operand.Number()"
+				} else if ex, isEx := u.X.(*ssa.Extract); isEx && ex.Index == 0 {
+					// the operand's number handed back by a helper of the package (evaluate the child, return Number())
+					if c, isCall := ex.Tuple.(*ssa.Call); isCall {
+						if g := staticCallee(c); g != nil && fnPkgKey(g) == "exec" && len(g.Blocks) > 0 {
+							all, n := true, 0
+							allInstrs(g, func(in ssa.Instruction) {
+								ret, isRet := in.(*ssa.Return)
+								if !isRet || len(ret.Results) != 2 || !isNilConst(ret.Results[1]) {
+									return
+								}
+								n++
+								if _, isNum := isMethodCall(ret.Results[0], "Number"); !isNum {
+									all = false
+								}
+							})
+							if all && n > 0 {
+								ok = true
+								detail = "stores -(the operand's Number(), handed back by " + g.Name() + ")"
+							}
+						}
+					}
 				}
 			}
 			w.check(P, "R06.1", fmt.Sprintf("UnaryExprNegate: stored result #%d", i+1), st.Pos(), ok, detail)
